@@ -3084,23 +3084,18 @@ func backoffDelay(faults int64, initialDelay, maxDelay time.Duration) time.Durat
 		return 0
 	}
 
-	// time.Duration is an int64 nanosecond count, so 62 doublings of even the
-	// smallest positive delay (1ns << 62 ≈ 146 years) exceed any sane maxDelay
-	// and one more doubling overflows int64. Cap early rather than rely on the
-	// wraparound check below.
-	shift := faults - 1
-	if shift >= 62 {
+	// initialDelay << shift exceeds maxDelay exactly when initialDelay exceeds
+	// maxDelay >> shift, so the cap is decided before shifting. Shifting first
+	// and checking afterwards misses doublings that wrap around int64 to a
+	// small positive value (e.g. (1<<40 + 1)ns << 24), which made the delay
+	// shrink as faults accumulated. A right shift by 63 or more yields zero for
+	// a non-negative maxDelay, so large fault counts saturate at maxDelay.
+	shift := uint64(faults - 1)
+	if initialDelay > maxDelay>>shift {
 		return maxDelay
 	}
 
-	// a single shift can still wrap around for larger initial delays
-	// (e.g. 100ms << 40); a wrapped value is negative or huge, both clamp
-	delay := initialDelay << uint(shift)
-	if delay <= 0 || delay > maxDelay {
-		return maxDelay
-	}
-
-	return delay
+	return initialDelay << shift
 }
 
 // childAddress returns the address of the given child actor provided the name
